@@ -39,7 +39,7 @@ ASSUMPTIONS = [
     'parse_table(json, ids) is not required to refuse unknown ids',
 ]
 ANCHORS = ['Table.from_hdf5', 'parse_biom_table', 'direct_parse_key', 'direct_slice_data', '_direct_slice_data_sparse_obs', '_direct_slice_data_sparse_samp', 'get_axis_indices', '_subset_table']
-REQUIRED = ['empty_request_answered', 'hdf5_default', 'hdf5_no_metadata', 'json_parse_table',
+REQUIRED = ['hdf5_files_with_stored_zeros', 'empty_request_answered', 'hdf5_default', 'hdf5_no_metadata', 'json_parse_table',
             'cli_hdf5', 'cli_json', 'cli_json_serialisations_agree',
             'unknown_refused_hdf5', 'unknown_refused_hdf5_nomd',
             'unknown_refused_cli', 'other_axis_vectors_dropped',
@@ -60,6 +60,38 @@ def drop_empty_other(spec, axis):
     else:
         keep = [i for k, i in enumerate(ids) if np.any(spec.D[k, :])]
     return expected_filter(spec, keep, inv, False), len(keep) < len(ids)
+
+
+def inject_stored_zeros(path, r):
+    """Rewrites both matrix views of a BIOM 2.1 file so that a few cells
+    whose value is zero are stored explicitly (0.0 in `data`)."""
+    import scipy.sparse as sp
+    with h5py.File(path, 'r+') as f:
+        shape = tuple(int(x) for x in f.attrs['shape'])
+        if not shape[0] or not shape[1]:
+            return False
+        g = f['observation/matrix']
+        M = sp.csr_matrix((g['data'][:], g['indices'][:], g['indptr'][:]),
+                          shape=shape)
+        D = M.toarray()
+        zr, zc = np.nonzero(D == 0)
+        if not len(zr):
+            return False
+        pick = r.sample(range(len(zr)), min(len(zr), r.randint(1, 4)))
+        coo = M.tocoo()
+        rows = list(coo.row) + [int(zr[q]) for q in pick]
+        cols = list(coo.col) + [int(zc[q]) for q in pick]
+        vals = list(coo.data) + [0.0] * len(pick)
+        full = sp.coo_matrix((vals, (rows, cols)), shape=shape)
+        for grp, mat in (('observation/matrix', full.tocsr()),
+                         ('sample/matrix', full.tocsc())):
+            mat.sort_indices()
+            for nm, arr, dt in (('data', mat.data, 'float64'),
+                                ('indices', mat.indices, 'int32'),
+                                ('indptr', mat.indptr, 'int32')):
+                del f[grp][nm]
+                f[grp].create_dataset(nm, data=np.asarray(arr, dtype=dt))
+    return True
 
 
 def serialisations(r, native):
@@ -135,6 +167,11 @@ def run_case(ctx, index):
         if variant in ('hdf5', 'hdf5-nomd', 'cli-hdf5'):
             with h5py.File(h5p, 'w') as f:
                 t.to_hdf5(f, gby, compress=r.random() < .5)
+            if r.random() < .3 and inject_stored_zeros(h5p, r):
+                # a file from another writer may store zeros explicitly; they
+                # are still zeros
+                ctx.count('hdf5_files_with_stored_zeros')
+                desc0['stored_zeros_injected'] = True
             whole = snap.snap(biom.load_table(h5p))
         else:
             native = t.to_json(gby)
